@@ -119,20 +119,20 @@ func floatBox(r *ev.Run, u *Universe) {
 	r.Count("A.float.sets-reaching-threshold-in-decimal-but-rejected-in-every-order", int(missed))
 	r.Shape("A|float|orders-of-subsets-of-6-direct-signers")
 	if firstOrder != nil {
-		r.Violation("acl|threshold|answer-depends-on-signer-order",
+		report("evaluation", "acl|threshold|answer-depends-on-signer-order",
 			fmt.Sprintf("rule %s: signers in order %v are accepted, the same signers in order %v are rejected (float64 running sum); %d such signer sets",
 				firstOrder.rule, firstOrder.accOrder, firstOrder.rejO, orderDep),
 			map[string]interface{}{"rule": firstOrder.rule, "rule_json": firstOrder.json, "accepted_order": firstOrder.accOrder, "rejected_order": firstOrder.rejO,
 				"call": "IdentifyAccount(stub, A, [A/k...])"})
 	}
 	if firstMiss != nil {
-		r.Violation("acl|threshold|decimal-weights-adding-up-to-threshold-rejected",
+		report("evaluation", "acl|threshold|decimal-weights-adding-up-to-threshold-rejected",
 			fmt.Sprintf("rule %s: signers %v have weights adding up to the threshold in decimal arithmetic, every order is rejected (float64 sum falls short); %d such signer sets",
 				firstMiss.rule, firstMiss.rejO, missed),
 			map[string]interface{}{"rule": firstMiss.rule, "rule_json": firstMiss.json, "signers": firstMiss.rejO, "call": "IdentifyAccount(stub, A, [A/k...])"})
 	}
 	if firstSpurious != nil {
-		r.Violation("acl|accepts-unsatisfied-rule|counted=none(float sum exceeds decimal sum)",
+		report("evaluation", "acl|accepts-unsatisfied-rule|counted=none(float sum exceeds decimal sum)",
 			fmt.Sprintf("rule %s: signers %v accepted below the threshold", firstSpurious.rule, firstSpurious.accOrder),
 			map[string]interface{}{"rule": firstSpurious.rule, "rule_json": firstSpurious.json, "signers": firstSpurious.accOrder})
 	}
@@ -182,8 +182,10 @@ func degenerateBox(u *Universe) *Box {
 	rules = append(rules, noPm)
 	rules = append(rules, &MRule{Kind: 2, NoSets: true})
 	rules = append(rules, &MRule{Kind: 2})
-	rules = append(rules, &MRule{Kind: 2, Sets: []uint32{1 << uint(k[0])}, NilSet: true})
-	rules = append(rules, &MRule{Kind: 2, NilSet: true})
+	if nullSetAdmissible {
+		rules = append(rules, &MRule{Kind: 2, Sets: []uint32{1 << uint(k[0])}, NilSet: true})
+		rules = append(rules, &MRule{Kind: 2, NilSet: true})
+	}
 	rules = append(rules, &MRule{Kind: 1, Accept: 1000}) // no weights at all
 	rules = append(rules, &MRule{Kind: 1, Accept: 0})
 	rules = append(rules, thr(0, int64(k[0]), 1000))
@@ -197,6 +199,11 @@ func degenerateBox(u *Universe) *Box {
 	}
 	return b
 }
+
+// nullSetAdmissible: may a rule that lists a JSON-null key set get on chain at all? Decided by
+// the end-to-end probe (NewAccount); when the node refuses such rules the direct evaluation of
+// one is not a legal input and is left out.
+var nullSetAdmissible = true
 
 func negativeBox(u *Universe) *Box {
 	k := u.K
